@@ -948,6 +948,8 @@ def rule_D7(ctx, rule: str = "D7") -> None:
             return sc["group"]
         if "_group_current" in txt and "==" in txt:
             return sc.get("selected", False)
+        if k[0] == "call" and dotted(k[1]).endswith("_include_default_value_for_oneof"):
+            return sc.get("selected", False)       # O5: true exactly for the selected member of a group
         if txt.startswith("isinstance("):
             return bool(sc["kind"]) and sc["kind"] in txt.split(",", 1)[1]
         if "_serialized_on_wire" in txt:
